@@ -62,7 +62,18 @@ def regen_constants():
     rc, out, err = sh([sys.executable, os.path.join(HERE, "extract_constants.py"), "--json"])
     if rc != 0:
         return None, err.strip()
-    return json.loads(out), None
+    consts = json.loads(out)
+    # tie 1b: small pure functions translated from the Rust source into Gen/Fns.lean. A function the translator
+    # cannot handle is left out of the file; the `generated_*` theorem that refers to it then fails to build and is
+    # reported as a broken proof obligation of the property it belongs to.
+    rc2, out2, err2 = sh([sys.executable, os.path.join(HERE, "translate_fns.py"), "--json"])
+    if rc2 != 0:
+        return None, "function translator failed: " + (err2.strip() or out2.strip())[-400:]
+    try:
+        consts["__translated_functions__"] = json.loads(out2)
+    except ValueError:
+        return None, "function translator produced no report"
+    return consts, None
 
 
 def strip_lean_comments(src):
@@ -577,6 +588,7 @@ def main():
             "trusted_base": P.get("trusted", []) + [
                 "Lean 4.33.0 kernel; axioms allowed: propext, Classical.choice, Quot.sound",
                 "tools/extract_constants.py (regex translator of Rust constants)",
+                "tools/translate_fns.py (translator of small pure Rust functions into Gen/Fns.lean; the subset and the emitted semantics are in its header)",
                 "correspondence harness (/verif/harness) + tools/check.py diffing",
             ],
             "theorems": thms,
